@@ -1093,12 +1093,11 @@ func (g *gstate) genHostile(f *flags) *jop {
 			e.Tags = []int{t, 1 + g.r.Intn(4), t}
 			return &jop{Op: "post", Elems: []elem{e}}
 		}
-	case 2: // related to itself
-		if p, ok := fresh(); ok {
-			f.hostile = "post element related to itself"
-			e := g.newElem(p)
-			e.Rels = []rel{{Rel: 1 + g.r.Intn(4), To: p}}
-			return &jop{Op: "post", Elems: []elem{e}}
+	case 2: // two elements at one position, one of them an existing element
+		if len(g.els) >= 1 {
+			f.hostile = "post two elements at one position"
+			e := g.els[g.r.Intn(len(g.els))]
+			return &jop{Op: "post", Elems: []elem{cp(e), g.newElem(e.Pos)}}
 		}
 	case 3: // onto an occupied position
 		if len(g.els) >= 2 {
@@ -1945,7 +1944,9 @@ func corpus() []jcase {
 			{Op: "post", Elems: []elem{{Pos: pos{4, 4, 4}, Kind: 2, Tags: []int{1}}, {Pos: pos{20, 4, 4}, Kind: 1, Tags: []int{2}}}},
 			{Op: "post", Elems: []elem{{Pos: pos{5, 5, 5}, Kind: 1}, {Pos: pos{6, 5, 5}, Kind: 1}, {Pos: pos{5, 5, 5}, Kind: 2}}},
 			{Op: "post", Elems: []elem{{Pos: pos{6, 6, 6}, Kind: 4, Tags: []int{1, 2, 1}}}},
-			{Op: "post", Elems: []elem{{Pos: pos{7, 7, 7}, Kind: 3, Rels: []rel{{Rel: 4, To: pos{7, 7, 7}}}}}},
+			{Op: "post", Elems: []elem{{Pos: pos{7, 7, 7}, Kind: 3, Rels: []rel{{Rel: 4, To: pos{7, 7, 7}}}}}}, // accepted (upstream fixtures relate elements to themselves)
+			{Op: "move", P: pos{7, 7, 7}, Q: pos{27, 7, 7}},                                                          // rejected: the relationship cannot follow
+			{Op: "delete", P: pos{7, 7, 7}},
 			{Op: "move", P: pos{4, 4, 4}, Q: pos{20, 4, 4}},
 			{Op: "move", P: pos{4, 4, 4}, Q: pos{5, 4, 4}},
 			{Op: "move", P: pos{5, 4, 4}, Q: pos{20, 4, 4}},
